@@ -350,6 +350,22 @@ def spec_independent(match_expr, priority):
     return [priority, pats, kinds, length]
 
 
+KIND_KEYWORDS = ['amount', 'date', 'month', 'year', 'day', 'weekday', 'source']
+
+
+def spec_semantic(match_expr, priority):
+    """The tuple as C09 WORDS it: '... how many kinds of amount, date, source or field constraints it USES ...'.
+    Same as spec_independent except that constraint kinds are identifiers of the expression: text inside quoted
+    pattern strings is not a constraint, and `weekday` is one kind (it is not also `day`)."""
+    low = match_expr.lower()
+    bare = re.sub(r'"[^"]*"', '""', low)
+    bare = re.sub(r"'[^']*'", "''", bare)
+    toks = set(re.findall(r'[a-z_][a-z0-9_]*', bare))
+    kinds = sum(1 for kw in KIND_KEYWORDS if kw in toks) + (1 if re.search(r'\bfield\s*\.', bare) else 0)
+    t = spec_independent(match_expr, priority)
+    return [t[0], t[1], kinds, t[3]]
+
+
 # ---------------------------------------------------------------------------------------------------
 # Coq rendering
 def cs(s):
